@@ -185,6 +185,17 @@ func Locks(p *core.Program) *LockAnalysis {
 	for _, path := range paths {
 		all = append(all, p.SrcFuncs(path)...)
 	}
+	// instantiations of the repository's generic functions (they belong to no package's member list)
+	have := map[*ssa.Function]bool{}
+	for _, fn := range all {
+		have[fn] = true
+	}
+	for _, fn := range p.RepoFuncs() {
+		if fn.Origin() != nil && fn.Blocks != nil && !have[fn] {
+			have[fn] = true
+			all = append(all, fn)
+		}
+	}
 	for _, fn := range all {
 		la.Fns[fn] = analyseLocal(fn, nil)
 	}
@@ -210,6 +221,9 @@ func inRepo(p *core.Program, fn *ssa.Function) bool {
 		return false
 	}
 	r := core.Root(fn)
+	if r.Pkg == nil && r.Origin() != nil {
+		r = r.Origin() // an instantiation of a generic function of the repository
+	}
 	return r.Pkg != nil && p.SPkgs[r.Pkg.Pkg.Path()] == r.Pkg
 }
 
